@@ -105,6 +105,11 @@ class LibMixin:
 
     def bi_isinstance(self, pos, kw, st, exc, e):
         v, c = pos
+        # isinstance(x, (list, tuple)) and the like: builtin type names written out in the source
+        a1 = e.args[1] if e is not None and len(getattr(e, "args", [])) == 2 else None
+        if isinstance(a1, ast.Tuple) and a1.elts and all(isinstance(x, ast.Name) and x.id in ("str", "int", "list", "tuple", "bool") for x in a1.elts) \
+                and not any(x.id in st.env for x in a1.elts):
+            return mk_bool(smt.Or(*[self.isinst(v, x.id, st) for x in a1.elts]))
         names = [it.py for it in tuple_items(c)] if c.ty.kind == "tuple" else [c.py]
         if c.ty.kind == "func" and c.py in ("str", "int", "list", "tuple", "bool"):
             return mk_bool(self.isinst(v, c.py, st))
